@@ -914,8 +914,8 @@ func genLats(r *Rand, in *Input) {
 // firstBlockWhileBusy shapes the relays so that one of them hands back the full block promptly (on its
 // first try, or on its second after a quick failure) while another one is still inside UnblindProposal:
 // hanging until the context ends, or slow to answer (whatever its answer is), possibly past the
-// deadline.  The first full block has to be submitted without waiting for the other relay.  Returns
-// the two relays.
+// deadline -- or (1 in 6) has already given up.  The first full block has to be submitted, without
+// waiting for the other relay.  Returns the two relays.
 func firstBlockWhileBusy(r *Rand, in *Input) []int {
 	for len(in.Relays) < 2 {
 		in.Relays = append(in.Relays, Relay{Can: true, Script: []UOut{{Kind: "err", Lat: uint64(r.Range(0, 999))}, {Kind: "err", Lat: uint64(r.Range(0, 999))}, {Kind: "err", Lat: uint64(r.Range(0, 999))}}})
@@ -959,7 +959,11 @@ func firstBlockWhileBusy(r *Rand, in *Input) []int {
 	}
 	// the relay that is busy then
 	sb := in.Relays[b].Script
-	switch r.Intn(5) {
+	switch r.Intn(6) {
+	case 5:
+		// has given up (a 400, or no block at all) before the first block is back: the block of the
+		// other relay is still to be waited for, and submitted
+		sb[0] = UOut{Kind: []string{"400", "400", "nil"}[r.Intn(3)], Lat: uint64(r.Range(0, int(first)))}
 	case 0, 1:
 		// never answers: every try hangs until the context is over
 		for k := range sb {
